@@ -257,7 +257,11 @@ func init() {
 	regEnv("("+abPkg+".Localizer).Localizef", "Localizef(ctx,key,args): deterministic in (key,args)",
 		func(ex *Executor, st *State, c *callCtx) []callResult {
 			key := argTerm(ex, st, c.Args[1])
-			return one(st, App("localize", SStr, argTerm(ex, st, c.Recv), key, ex.argsDigest(st, c.Args[2])))
+			txt := App("localize", SStr, argTerm(ex, st, c.Recv), key, ex.argsDigest(st, c.Args[2]))
+			// (an event so that a replay can script the configured localizer's answer; callers of
+			// Authboss.Localizef use its summary and never see it)
+			st.Emit("Localize", []Value{key}, []Value{txt}, ex.pos(c.Pos))
+			return one(st, txt)
 		})
 	regEnv("("+abPkg+".ErrorHandler).Wrap", "ErrorHandler.Wrap(f): some handler", func(ex *Executor, st *State, c *callCtx) []callResult {
 		h := App("errwrap", SInt, argTerm(ex, st, c.Args[0]))
@@ -405,6 +409,17 @@ func routeEffect(method string) EnvFn {
 // argsDigest turns a variadic []interface{} into one term (for Localizef /
 // Sprintf style calls) preserving the argument terms as subterms.
 func (ex *Executor) argsDigest(st *State, v Value) *Term {
+	switch x := v.(type) {
+	case *Term:
+		// an operand list that is itself symbolic (a variadic parameter passed on)
+		if x.S == SInt {
+			return App("args!ref", SInt, x)
+		}
+	case *SymSliceV:
+		if x.Ref != nil {
+			return App("args!ref", SInt, x.Ref)
+		}
+	}
 	elems := ex.sliceElems(st, v)
 	t := IntLit(0)
 	for _, e := range elems {
